@@ -8,6 +8,10 @@ claims = {
          "No-panic obligations (nil dereference, index, slice bounds, explicit panic unreachable, type assertion, nil map) and loop/recursion variants for every function under contract, generated from go/ssa and discharged by SMT for all inputs; scanner stack discipline (Pop never on empty) is an inductive invariant over all 160 state functions.",
          "Functions outside the contract set and the schema library are not covered; termination only where a decreases clause exists; see evidence.assumptions and unverified_functions.",
          "contract-based deductive verification: safety VCs from go/ssa discharged by z3/cvc5", "DESIGN.md 4.C01"),
+ "C06": ("proof",
+         "processContext is proved against the property statement itself: on success the directive hangs under anc(k) for the least k whose kind admits it, with no explicit context crossed (or at top level when the chain is exhausted and the kind may stand there; or hoisted for a path-bearing HTTP method under a non-parenthesised URL); on error no such place exists; closeLastExplicitContext / HasUnclosedExplicitContext / processEOF / processContextEnd / processCurrentDirective / next are proved against the ancestor-chain specification; termination of the walks by a ghost depth (TreeWF).",
+         "allowedCtx is the repository's parent/child table read as an uninterpreted relation (IsAllowedForDirectiveContext trusted to be a pure function of its arguments); ghost depth updates are ghost code at function exit; paste re-resolution (processDirective) not yet under contract.",
+         "contract-based deductive verification: loop invariant over contract-local ancestor function, VCs from go/ssa discharged by z3/cvc5", "DESIGN.md 4.C06"),
  "C14": ("proof",
          "Scanner invariant (stack, event queue, ghost lexeme typestate) proved inductive over all state functions and Scanner.Next; emitted lexemes have begin <= end+1, end inside the input, events paired; keyword lexemes spell a directive word (spell tables checked per transition); schema/enum body length is the library's (assumed) length.",
          "Assumes the schema library's Len()/Position() bounds (deps.spec); ghost-state definitions of found/foundAt; strict ordering across lexemes is proved at emission (typestate of found/foundAt), not re-proved for the FIFO queue.",
